@@ -4,8 +4,8 @@
 # while the battery or the seed matrix is busy.
 P="$1"; shift
 PROPS="$*"
-T=/tmp/devtree; V=/tmp/devtree-verif
-rm -rf $T $V; mkdir -p $T $V; cp /verif/known_findings.txt $V/
+T=$(mktemp -d /tmp/devtree.XXXXXX); V=$(mktemp -d /tmp/devtree-verif.XXXXXX)
+ cp /verif/known_findings.txt $V/
 git -C /repo archive HEAD | tar -x -C $T || exit 2   # the committed state: the working tree may be patched by a running seed matrix
 ( cd $T && patch -p1 -s < "$P" ) || { echo "patch does not apply"; rm -rf $T $V; exit 2; }
 if [ -z "$PROPS" ]; then
